@@ -87,7 +87,7 @@ func c15Call(t vuego.Template, entry string) (string, string) {
 
 // c15Run runs one history. fsKind: "" = the engine reads the mutable filesystem directly; "overlay" = through an OverlayFS whose upper layer
 // is the mutable filesystem and whose lower layer holds older copies of every file with a zero modification time (embedded defaults under
-// user content, the markdown package's arrangement); "overlay-nil" = an OverlayFS with a nil first layer over the mutable filesystem
+// user content, the markdown package's arrangement); "overlay-nil" = an OverlayFS with a nil first layer over the mutable filesystem; "withfs" = the engine is built with New(WithFS(fs)) instead of NewFS(fs)
 func c15Run(steps []c15Step, fsKind ...string) *Case {
 	kind := ""
 	if len(fsKind) > 0 {
@@ -123,7 +123,14 @@ func c15Run(steps []c15Step, fsKind ...string) *Case {
 		}
 		return mfs
 	}
-	long := vuego.NewFS(mkfs())
+	// how the engine is built: NewFS(fs), or New(WithFS(fs)) - the option installs the filesystem after construction (kind "withfs")
+	mkEngine := func() vuego.Template {
+		if kind == "withfs" {
+			return vuego.New(vuego.WithFS(mkfs()))
+		}
+		return vuego.NewFS(mkfs())
+	}
+	long := mkEngine()
 	var obs []any
 	var key strings.Builder
 	for i, s := range steps {
@@ -209,7 +216,7 @@ func c15Run(steps []c15Step, fsKind ...string) *Case {
 			obs = append(obs, nil)
 		case "render":
 			got, gerr := c15Call(long, s.Entry)
-			fresh := vuego.NewFS(mkfs())
+			fresh := mkEngine()
 			want, werr := c15Call(fresh, s.Entry)
 			obs = append(obs, map[string]any{"out": got, "err": gerr})
 			if (got != want || gerr != werr) && c.Oracle.OK {
@@ -339,6 +346,7 @@ func runC15(r *Run, replay *Case) {
 				r.Add(c15Run([]c15Step{{Op: "render", Entry: e1}, m, {Op: "render", Entry: e2}, m, {Op: "render", Entry: e2}}, "overlay"))
 				if e1 == e2 {
 					r.Add(c15Run([]c15Step{{Op: "render", Entry: e1}, m, {Op: "render", Entry: e2}}, "overlay-nil"))
+					r.Add(c15Run([]c15Step{{Op: "render", Entry: e1}, m, {Op: "render", Entry: e2}}, "withfs"))
 				}
 				for _, m2 := range muts {
 					if r.Thorough() || (m.File == m2.File) {
@@ -401,6 +409,6 @@ func runC15(r *Run, replay *Case) {
 			}
 		}
 		steps = append(steps, c15Step{Op: "render", Entry: c15Entries[r.Rng.Intn(len(c15Entries))]})
-		r.Add(c15Run(steps, []string{"", "", "overlay", "overlay-nil"}[i%4]))
+		r.Add(c15Run(steps, []string{"", "withfs", "overlay", "overlay-nil"}[i%4]))
 	}
 }
